@@ -1,6 +1,6 @@
 CONSTANTS
   Driver = "poll"
-  Shapes <- ShapesLive
+  Shapes <- ShapesLiveQ
   MaxSteps = 0
   MaxCancel = 2
   MaxFeed = 2
